@@ -120,6 +120,12 @@ var caseMu sync.Mutex
 
 // announceCase records the case about to be executed so that a crash can be attributed.
 func announceCase(desc string) {
+	if tf := os.Getenv("VERIF_CASE_TRACE"); tf != "" {
+		if f, err := os.OpenFile(tf, os.O_APPEND|os.O_CREATE|os.O_WRONLY, 0o644); err == nil {
+			fmt.Fprintf(f, "CASE %s %s\n", time.Now().Format("15:04:05.000"), desc)
+			f.Close()
+		}
+	}
 	p := os.Getenv("VERIF_CHILD_CASE")
 	if p == "" {
 		return
